@@ -24,7 +24,7 @@
 //! ```
 use std::collections::BTreeMap;
 
-use aes::cipher::generic_array::{typenum::U8, GenericArray};
+use aes::cipher::generic_array::GenericArray;
 use coset::iana::Algorithm;
 use p256::EncodedPoint;
 use serde::{Deserialize, Serialize};
@@ -216,14 +216,16 @@ impl TryFrom<CoseKey> for EncodedPoint {
                 x,
                 y,
             } => {
-                let x_generic_array = GenericArray::from_slice(x.as_ref());
+                let x_generic_array = GenericArray::from_exact_iter(x.iter().copied())
+                    .ok_or(Error::InvalidCoseKey)?;
                 match y {
                     EC2Y::Value(y) => {
-                        let y_generic_array = GenericArray::from_slice(y.as_ref());
+                        let y_generic_array = GenericArray::from_exact_iter(y.iter().copied())
+                            .ok_or(Error::InvalidCoseKey)?;
 
                         Ok(EncodedPoint::from_affine_coordinates(
-                            x_generic_array,
-                            y_generic_array,
+                            &x_generic_array,
+                            &y_generic_array,
                             false,
                         ))
                     }
@@ -240,13 +242,6 @@ impl TryFrom<CoseKey> for EncodedPoint {
                         Ok(encoded)
                     }
                 }
-            }
-            CoseKey::OKP { crv: _, x } => {
-                let x_generic_array: GenericArray<_, U8> =
-                    GenericArray::clone_from_slice(&x[0..42]);
-                let encoded = EncodedPoint::from_bytes(x_generic_array)
-                    .map_err(|_e| Error::InvalidCoseKey)?;
-                Ok(encoded)
             }
             _ => Err(Error::InvalidCoseKey),
         }
